@@ -1,5 +1,6 @@
 SPECIFICATION Spec
 CONSTANTS
+  Tiny = FALSE
   WithOrders = TRUE
   SampleMod = 200
 INVARIANTS MergeMatchesUnion ValidAreAccepted RowsIndependent ExportInv
